@@ -123,9 +123,8 @@ void Runner::op_start(Thread *t, int idx, const Op &op, OpRes &res) {
   }
   static const char *const wds[] = { nullptr, "/work", "/missing", "/tmp/existing", ".", "sub" };
   b.o.working_directory = wds[s.wd >= 0 && s.wd < 6 ? s.wd : 0];
-  static const char *const progs[] = { "/bin/prog", "./prog", "sub/prog", "prog", "/bin/missing", "/bin/noexec", "/bin", "nosuchprog", "" };
   if (!s.argv_null) {
-    b.argv.push_back(progs[s.prog >= 0 && s.prog < 9 ? s.prog : 0]);
+    b.argv.push_back(prog_string(s.prog));
     for (auto &a : s.args) b.argv.push_back(a.c_str());
     b.argv.push_back(nullptr);
   }
@@ -290,7 +289,7 @@ void Runner::op_start(Thread *t, int idx, const Op &op, OpRes &res) {
   if (!s.fork || true) { if (k->caller->rlim_cur - 1 > 1024 * 1024) natural.insert(EMFILE); }
   // deep working directory: the absolute program path can exceed PATH_MAX
   bool beyond_pathmax = false;
-  if (!s.fork && s.wd != 0 && (s.prog == 1 || s.prog == 2)) {
+  if (!s.fork && s.wd != 0 && (s.prog == 1 || s.prog == 2 || s.prog == 9 || s.prog == 10)) {
     size_t len = k->vfs_path(cwd_node).size() + 10;
     if (len >= 4096) { natural.insert(ENAMETOOLONG); beyond_pathmax = true; }
   }
@@ -319,6 +318,9 @@ void Runner::op_start(Thread *t, int idx, const Op &op, OpRes &res) {
       if (!natural.count((int) -v) && !fault_errs.count((int) -v))
         viol("C04", "wrong-error", "cause=unexecutable-input", fmt("start returned %s, expected one of the natural causes (first: %s)", errn(v).c_str(),
                                                                    strerror(*natural.begin())), idx);
+    } else if (!fault_ignorable && !s.fork && (s.prog == 1 || s.prog == 2 || s.prog == 9 || s.prog == 10) && (v == -ENOENT || v == -EACCES || v == -ENOTDIR)) {
+      viol("C03", "relative-program-not-found", fmt("prog=%s/wd=%d", s.prog == 9 ? "../<cwd>/prog" : prog_string(s.prog), s.wd),
+           fmt("'%s' exists relative to the parent's working directory but start returned %s", s.prog == 9 ? "../<cwd>/prog" : prog_string(s.prog), errn(v).c_str()), idx);
     } else if (!fault_ignorable) {
       // a valid, executable configuration failed: the stream set-up cannot deliver what the options ask for
       int low = plan.w.low_fds;
@@ -430,11 +432,13 @@ void Runner::check_image(Thread *t, Proc *c, ExecImage *img) {
       break;
     }
   }
+  // ---- process-wide state another thread's start may have touched (C20): the file mode creation mask
+  if (img->umask_ != 022)
+    viol("C20", "cross-talk-umask", "", fmt("the child starts with umask %03o, the caller's is 022: process-wide state changed inside another start leaked into this child", img->umask_), idx);
   // ---- C03: argv / env / cwd / program
   if (!forked) {
     std::vector<std::string> want_argv;
-    static const char *const progs[] = { "/bin/prog", "./prog", "sub/prog", "prog", "/bin/missing", "/bin/noexec", "/bin", "nosuchprog", "" };
-    want_argv.push_back(progs[s.prog >= 0 && s.prog < 9 ? s.prog : 0]);
+    want_argv.push_back(prog_string(s.prog));
     for (auto &a : s.args) want_argv.push_back(a);
     if (img->argv != want_argv) {
       size_t i = 0;
@@ -447,11 +451,13 @@ void Runner::check_image(Thread *t, Proc *c, ExecImage *img) {
       case 0: want_node = n_prog_bin; break;
       case 1: want_node = n_prog_cwd; break;
       case 2: want_node = n_prog_sub; break;
+      case 9: want_node = n_prog_cwd; break;
+      case 10: want_node = n_prog_hidden; break;
       default: want_node = -2; break;  // PATH search / failing cases: decided below
     }
     if (want_node >= 0 && img->vnode != want_node)
-      viol("C03", "wrong-program-resolved", fmt("prog=%s/wd=%d", progs[s.prog], s.wd),
-           fmt("'%s' was resolved to %s instead of %s", progs[s.prog], k->vfs_path(img->vnode).c_str(), k->vfs_path(want_node).c_str()), idx);
+      viol("C03", "wrong-program-resolved", fmt("prog=%s/wd=%d", s.prog == 9 ? "../<cwd>/prog" : prog_string(s.prog), s.wd),
+           fmt("'%s' was resolved to %s instead of %s", prog_string(s.prog), k->vfs_path(img->vnode).c_str(), k->vfs_path(want_node).c_str()), idx);
   }
   {
     std::vector<std::string> want_env;
